@@ -62,9 +62,13 @@ func Harness_E_C08() {
 	vhOptions(in, 0)
 	re := vhRename(in)
 	re.buildOpts()
-	a := Layout(in.src, in.opts...)
-	vhReach("first-returned")
-	b := Layout(re.src, re.opts...)
+	var a, b graph.Layout
+	pa := vhPanics(func() { a = Layout(in.src, in.opts...) })
+	pb := vhPanics(func() { b = Layout(re.src, re.opts...) })
+	vhAssert(pa == pb, "rename-same-panic-behaviour")
+	if pa || pb {
+		return
+	}
 	vhReach("returned")
 	vhAssert(len(a.Nodes) == len(b.Nodes), "rename-node-count")
 	vhAssert(len(a.Edges) == len(b.Edges), "rename-edge-count")
@@ -108,7 +112,12 @@ func Harness_E_C09() {
 				sub = append(sub, in.src[i])
 			}
 		}
-		solo := Layout(sub, in.opts...)
+		var solo graph.Layout
+		ps := vhPanics(func() { solo = Layout(sub, in.opts...) })
+		vhAssert(!ps, "component-solo-layout-returns")
+		if ps {
+			return
+		}
 		// translation: taken from the representative node
 		rw, _ := vhNodeByID(whole, in.ids[c])
 		rs, _ := vhNodeByID(solo, in.ids[c])
@@ -444,8 +453,13 @@ func Harness_E_C17() {
 	}
 	sc.fw, sc.fh, sc.ns, sc.ls = in.fw*c, in.fh*c, in.ns*c, in.ls*c
 	sc.buildOpts()
-	a := Layout(in.src, in.opts...)
-	b := Layout(sc.src, sc.opts...)
+	var a, b graph.Layout
+	pa := vhPanics(func() { a = Layout(in.src, in.opts...) })
+	pb := vhPanics(func() { b = Layout(sc.src, sc.opts...) })
+	vhAssert(pa == pb, "scale-same-panic-behaviour")
+	if pa || pb {
+		return
+	}
 	vhReach("returned")
 	vhAssert(len(a.Nodes) == len(b.Nodes), "scale-node-count")
 	vhAssert(len(a.Edges) == len(b.Edges), "scale-edge-count")
@@ -469,8 +483,13 @@ func Harness_E_C18a() {
 	in := vhShape()
 	vhOptions(in, 0)
 	rec := &vhRecorder{}
-	a := Layout(in.src, in.opts...)
-	b := Layout(in.src, append(in.opts, WithMonitor(rec))...)
+	var a, b graph.Layout
+	pa := vhPanics(func() { a = Layout(in.src, in.opts...) })
+	pb := vhPanics(func() { b = Layout(in.src, append(in.opts, WithMonitor(rec))...) })
+	vhAssert(pa == pb, "monitor-same-panic-behaviour")
+	if pa || pb {
+		return
+	}
 	vhReach("returned")
 	vhSameLayout(a, b, "monitor")
 }
